@@ -12,6 +12,7 @@
 mod alloc;
 mod cc14;
 mod common;
+mod newtypes;
 mod nrpn;
 #[cfg(feature = "cfg_std")]
 mod polling;
@@ -30,6 +31,7 @@ use std::io::{BufRead, Write};
 pub fn exec(tag: i64, inp: &[i64]) -> Vec<i64> {
     match tag {
         10 | 11 | 12 | 13 | 20 | 30 | 60 | 61 | 62 => sm::exec(tag, inp),
+        40 | 41 | 42 | 43 | 50 | 51 | 52 => newtypes::exec(tag, inp),
         70 | 71 | 80 => cc14::exec(tag, inp),
         90 | 100 | 101 | 110 => nrpn::exec(tag, inp),
         #[cfg(feature = "cfg_std")]
@@ -45,6 +47,8 @@ fn gen(prop: &str, tier: Tier, seed: u64, em: &mut Emitter) {
         "C01" => sm::gen_c01(tier, seed, em),
         "C02" => sm::gen_c02(tier, seed, em),
         "C03" => sm::gen_c03(tier, seed, em),
+        "C04" => newtypes::gen_c04(tier, seed, em, if cfg!(feature = "cfg_std") { 0 } else { 1 }),
+        "C05" => newtypes::gen_c05(tier, seed, em),
         "C06" => sm::gen_c06(tier, seed, em),
         "C07" => cc14::gen_c07(tier, seed, em),
         "C08" => cc14::gen_c08(tier, seed, em),
